@@ -135,6 +135,17 @@ CLAIMED["C12"] = dict(
     note="Trusted: net.converged and user_pf_options['hyd_flag'] are bookkeeping. reuse_internal_data across calls is covered by C07; "
          "bidirectional + automatic damping (known C05 finding) is not generated.",
     ref="DESIGN.md 4/C12")
+CLAIMED["C16"] = dict(
+    technique="model-based history testing: generated sequences of single / bulk create calls with one injected fault per call, snapshot and twin-net oracles",
+    text="Exploration: generated histories of 4-14 calls over all 17 single and 11 bulk element-creating functions on nets of every sector; "
+         "each call is valid (random optional arguments omitted) or carries exactly one injected fault. Accepted call: row count, returned / "
+         "forced index, every given value, documented defaults (parsed from the docstring) for omitted arguments, declared column dtypes, "
+         "unique index, other tables untouched; rejected call: deep snapshot of the whole net unchanged; every bulk call is replayed as single "
+         "calls on a twin net (values and dtypes); standard-type pipes / pumps are compared with elements created from the type's parameters; "
+         "all references resolve at the end.",
+    note="Trusted: docstring ':type x: T, default V' lines as the documented defaults; create_pressure_control's soft refusal. Known finding: "
+         "a rejected call on a net lacking the component leaves a new empty table (component registered before validation).",
+    ref="DESIGN.md 4/C16")
 NOT_YET = {}
 
 def main():
